@@ -10,6 +10,7 @@ from lib.wishbone import WBMaster, WBMemSlave, CTI_INCR, CTI_END
 from lib.portcase import slave_sched
 
 ID = "C10"
+REQUIRED_CLASSES = ['abort', 'rw_same_wide_word', 'burst_crosses_native_word', 'n2w']      # classes that must occur in every run (else harness error: vacuous generator)
 LEVEL = "exploration"
 RULE = ("case = (LiteDRAMWishbone2Native for bus:port width ratios 1/8..8 and base addresses, or LiteDRAMNative2Wishbone word/byte addressed) x (Wishbone master: classic cycles "
         "and incrementing bursts, any sel, back-to-back or with idle cycles, aborts = cyc and stb dropped at a generated cycle before the acknowledge) x (realistic native slave "
